@@ -104,36 +104,49 @@ def run(ctx):
         keyc = ctx.find_calls(f, r"KeyFromPath>::from_path$")
         fw = ctx.find_calls(f, r"Accumulator::finish_with$|Accumulator::finish$")
         ctx.ob("C14.shape.loop", f.key, "one map.insert, one seen_keys.insert, one contains, one key conversion, one finish",
-               (len(inserts), len(seen_ins), len(contains), len(keyc), len(fw)) == (1, 1, 1, 1, 1) and len(handles) + len(pushes) >= 4,
+               (len(inserts), len(seen_ins), len(keyc), len(fw)) == (1, 1, 1, 1) and len(contains) <= 1 and len(handles) + len(pushes) + len(ctx.find_calls(f, r"Extend<darling_core::error::Error>>::extend$")) >= 3,
                str((len(handles), len(pushes), len(inserts), len(seen_ins), len(contains), len(keyc), len(fw))))
-        if not (keyc and inserts and seen_ins and contains and fw):
+        if not (keyc and inserts and seen_ins and fw):
             continue
+        # "already seen" is asked with `contains` before a later insert, or answered by the insert
+        # itself (`seen_keys.insert(k)` is false exactly when k was there)
+        insert_is_test = not contains
         kt = mir.callee_info(keyc[0][1]).get("self_ty")
         ctx.ob("C14.F.key-conversion-type", f.key, "<%s as KeyFromPath>::from_path" % key, kt == key, "key converted with %s" % kt)
         KEYOK = r"is_ok\(.*KeyFromPath>::from_path\(.*\)\)=True"
         KEYBAD = r"is_ok\(.*KeyFromPath>::from_path\(.*\)\)=False"
-        SEEN = r"HashSet::<T, S(, A)?>::contains\(.*\)="
+        SEEN_T = r"HashSet::<T, S(, A)?>::contains\(.*\)=True|HashSet::<T, S(, A)?>::insert\(.*\)=False"
+        SEEN_F = r"HashSet::<T, S(, A)?>::contains\(.*\)=False|HashSet::<T, S(, A)?>::insert\(.*\)=True"
         # key failure: push the key error and still handle the value
         bad_push = [(blk, t) for blk, t in pushes if ctx.pc_strs(f, blk) and all(ctx._sat(d, KEYBAD) for d in ctx.pc_strs(f, blk))]
         bad_handle = [(blk, t) for blk, t in handles if all(ctx._sat(d, KEYBAD) for d in ctx.pc_strs(f, blk)) and ctx.pc_strs(f, blk)]
         key_err = [(blk, t) for blk, t in bad_push if "from_path(" in ctx.expr(f, t["args"][1])]
         val_rec = bad_handle + [(blk, t) for blk, t in bad_push if "from_path(" not in ctx.expr(f, t["args"][1])]
+        # (or both at once: `errors.extend(once(key_error).chain(value.err()))`)
+        for blk_, t_ in ctx.find_calls(f, r"Extend<darling_core::error::Error>>::extend$"):
+            e_ = ctx.expr(f, t_["args"][1])
+            pcs_ = ctx.pc_strs(f, blk_)
+            if pcs_ and all(ctx._sat(d, KEYBAD) for d in pcs_) and "from_path(" in e_ and "iter::sources::once::once(" in e_ and "Iterator::chain(" in e_ and "Result::<T, E>::err(" in e_:
+                key_err.append((blk_, t_))
+                val_rec.append((blk_, t_))
         ctx.ob("C14.G.bad-key-reported", f.key, "Err(e) => errors.push(e)", len(key_err) == 1, "%d pushes of the key error under a failed key conversion" % len(key_err))
         ctx.ob("C14.G.bad-key-still-reports-value", f.key, "the value's error is recorded under a failed key", len(val_rec) == 1, "%d" % len(val_rec))
         # map.insert requires value Ok and not seen
         blk, t = inserts[0]
-        ctx.requires("C14.G.insert-only-fresh-ok", f, blk, "map.insert", [KEYOK, SEEN + "False", r"is_ok\(\(.* as Some\)\.0\.1\)=True|discr\(\(.*\)\.1\)=Ok|is_ok\(.*\.1\)=True|is_ok\(.*from_meta\(.*\)=True"])
+        ctx.requires("C14.G.insert-only-fresh-ok", f, blk, "map.insert", [KEYOK, SEEN_F, r"is_ok\(\(.* as Some\)\.0\.1\)=True|discr\(\(.*\)\.1\)=Ok|is_ok\(.*\.1\)=True|is_ok\(.*from_meta\(.*\)=True"])
         ins_val = ctx.expr(f, t["args"][2])
         ctx.ob("C14.G.insert-value-is-converted-value", f.key, "inserted value", bool(re.search(r"as Ok\)\.0$", ins_val)) and "from_path(" not in ins_val, "inserts %s" % ins_val[:140])
         ins_key = ctx.expr(f, t["args"][1])
-        ctx.ob("C14.G.insert-key-is-converted-key", f.key, "inserted key", "KeyFromPath>::from_path(" in ins_key and "clone(" in ins_key, "key %s" % ins_key[:160])
+        ctx.ob("C14.G.insert-key-is-converted-key", f.key, "inserted key", "KeyFromPath>::from_path(" in ins_key and ("clone(" in ins_key or "clone(" in ctx.expr(f, seen_ins[0][1]["args"][1])), "key %s" % ins_key[:160])
         # duplicate push requires seen
-        dup = ctx.find_calls(f, r"^darling_core::error::Error::duplicate_field$")
+        # (built in the loop or by one private helper / provided method of the private key trait)
+        dup = ctx.find_calls_deep(f, r"^darling_core::error::Error::duplicate_field$", helpers=1)
         ctx.ob("C14.G.duplicate-shape", f.key, "one duplicate_field", len(dup) == 1, "%d" % len(dup))
-        for b2, t2 in dup:
-            ctx.requires("C14.G.duplicate-iff-seen", f, b2, "duplicate_field", [KEYOK, SEEN + "True"])
-        dpush = [(b2, t2) for b2, t2 in pushes if "duplicate_field(" in ctx.expr(f, t2["args"][1])]
-        ok = len(dpush) == 1 and "with_span(" in ctx.expr(f, dpush[0][1]["args"][1])
+        for b2, t2, o2 in dup:
+            ctx.requires("C14.G.duplicate-iff-seen", f, b2, "duplicate_field", [KEYOK, SEEN_T])
+        via = [o2 for _, _, o2 in dup if o2 is not f]
+        dpush = [(b2, t2) for b2, t2 in pushes if "duplicate_field(" in ctx.expr(f, t2["args"][1]) or any(o2.key + "(" in ctx.expr(f, t2["args"][1]) for o2 in via)]
+        ok = len(dpush) == 1 and ("with_span(" in ctx.expr(f, dpush[0][1]["args"][1]) or any(all("with_span(" in r_ for r_ in ctx.ret_values(o2)) for o2 in via))
         ctx.ob("C14.G.duplicate-pushed-spanned", f.key, "errors.push(duplicate_field(..).with_span(path))", ok, "%s" % [ctx.expr(f, t2["args"][1])[:120] for _, t2 in dpush])
         # value error pushed
         vpush = [(b2, t2) for b2, t2 in pushes if re.search(r"as Err\)\.0$", ctx.expr(f, t2["args"][1])) and "from_path(" not in ctx.expr(f, t2["args"][1])
@@ -145,10 +158,14 @@ def run(ctx):
         sblk = seen_ins[0][0]
         ctx.requires("C14.P.seen-recorded", f, sblk, "seen_keys.insert(key)", [KEYOK])
         # must-pass-through: from the Ok-key edge every path to the next iteration passes through seen_keys.insert
-        cblk = contains[0][0]
         nexts = [b2 for b2, t2 in ctx.find_calls(f, r"Iterator>::next$")]
-        reach = f.reachable(cblk, False, avoid={sblk})
-        ok = not any(n in reach for n in nexts) and not any(b2 in reach for b2, _ in fw)
+        if insert_is_test:
+            # the insert is the test: it must not stand behind a test of the value
+            ok = all(not any(re.search(r"\.1\)?=|from_meta\(", a_) and "from_path(" not in a_ for a_ in d) for d in ctx.pc_strs(f, sblk))
+        else:
+            cblk = contains[0][0]
+            reach = f.reachable(cblk, False, avoid={sblk})
+            ok = not any(n in reach for n in nexts) and not any(b2 in reach for b2, _ in fw)
         ctx.ob("C14.P.seen-recorded-on-every-path", f.key, "contains(..) … seen_keys.insert(key)", ok, "every path from the seen test to the next iteration (or the exit) must record the key, including the failed-value path")
         # result
         rs = ctx.ret_values(f)
@@ -174,11 +191,18 @@ def run(ctx):
     # KeyFromPath
     f = ctx.fn("<proc_macro2::Ident as darling_core::from_meta::KeyFromPath>::from_path")
     if f:
-        oks = ctx.find_aggregates(f, r"^core::result::Result$", "Ok")
-        for blk, i, st in oks:
-            ctx.requires("C14.G.ident-key-single-plain-segment", f, blk, "Ok(ident)", [r"^len\(a1\.segments\)=1$", r"is_some\(a1\.leading_colon\)=False", r"PathArguments::is_empty\(.*\)=True"],
-                         alt=[[r"is_some\(.*Iterator>::next\(.*a1\.segments.*\)\)=True", r"is_some\(.*Iterator>::next\(.*a1\.segments.*\)\)=False", r"is_some\(a1\.leading_colon\)=False", r"PathArguments::is_empty\(.*\)=True"]])
-        ctx.ob("C14.G.ident-key-shape", f.key, "one Ok", len(oks) == 1, "%d" % len(oks))
+        # the case table: an identifier key is a path of exactly one segment, without a leading `::`
+        # and without generic arguments – however the three tests are written
+        cs = resalg.cases(ctx, f)
+        okr = [(c, v) for c, v in cs if v.startswith("core::result::Result::Ok{")]
+        def single(c):
+            if "len(a1.segments)=1" in c:
+                return True
+            nx = [a for a in c if re.match(r"^is_some\(.*Iterator>::next\(.*a1\.segments.*\)\)=(True|False)$", a)]
+            return any(a.endswith("=True") for a in nx) and any(a.endswith("=False") for a in nx)     # first next() Some, second None
+        ok = bool(okr) and all(single(c) and "is_some(a1.leading_colon)=False" in c and any(re.match(r"^syn::path::PathArguments::is_empty\(.*\)=True$", a) for a in c) for c, v in okr)
+        ctx.ob("C14.G.ident-key-single-plain-segment", f.key, "Ok(ident)", ok, "Ok under %s" % [c for c, v in okr])
+        ctx.ob("C14.G.ident-key-shape", f.key, "one Ok", len(okr) == 1 and all(re.search(r"clone\(.*\.ident\)\}$", v) for c, v in okr), "%d Ok cases" % len(okr))
     f = ctx.fn("<alloc::string::String as darling_core::from_meta::KeyFromPath>::from_path")
     if f:
         rs = ctx.ret_values(f)
